@@ -100,6 +100,9 @@ var EdgeTemplates = []edgeTemplate{
 	{"a=", "b", " c"}, {"", "a", "=b c"}, {"a=(", "b ", ") c"}, {"echo {", "a", ",b} c"}, {"echo @(", "a", ") b"}, {"echo *(", "a", ") b"}, {"[[ a =~ ", "b", " ]]"}, {"[[ a =~ (", "b", ") ]]"}, {"[[ ", "a", " == b ]]"},
 	{"echo `", "a", "` b"}, {"echo $(", "a", ") b"}, {"echo <(", "a", ") b"}, {"echo ", "$a", " b"}, {"echo ", "'a'", " b"}, {"echo ", "\"a\"", " b"}, {"echo ", "a ", "b"}, {"a ", ">f ", "b"}, {"", "a;", "b"}, {"", "a|", "b"},
 	{"echo ${(", "U", ")x} b"}, {"echo ${x:", "h:", "t} b"}, {"echo a(", "b", ") c"}, {"echo ", "*", " b"}, {"echo ", "=", " b"}, {"echo ", "!", " b"}, {"echo ", "~", " b"}, {"echo ", "[", " b"}, {"echo ", "{", " b"}, {"echo ", "-", " b"},
+	// a token of every kind BEGINNING at the boundary (the run before it is made of two-byte words)
+	{"echo ", "a ", "\\b c"}, {"echo ", "a ", "'q' c"}, {"echo ", "a ", "\"q\" c"}, {"echo ", "a ", "$x c"}, {"echo ", "a ", "$(x) c"}, {"echo ", "a ", ">f c"}, {"echo ", "a ", "# c"},
+	{"echo ", "a ", "; \\c"}, {"echo ", "a ", "&& c"}, {"echo ", "a ", "<<<x c"}, {"echo ", "a ", "é c"}, {"echo ", "a ", "$$ c"}, {"echo ", "a ", "`x` c"}, {"echo ", "a ", "<1-5> c"}, {"echo ", "a ", "{b,c} d"},
 	{"case x in ", "a|", "b) c ;; esac"}, {"case ", "a", " in b) c ;; esac"}, {"for i in ", "a ", "; do b; done"}, {"f", "a", "() { b; }"}, {"let ", "1+", "1"}, {"((", "1+", "1))"}, {"echo ${a/", "b", "/c} d"}, {"echo ${a:", "1", ":2} b"},
 }
 
